@@ -11,14 +11,25 @@
   the modelled outputs.
 -/
 import Hv.Query.Lemmas
+import Hv.Query.Bucket
+import Hv.Query.SameKind
 
 namespace Hv.C08
 open Hv.Query
 
 /-- Full-strength statement: same items (keys, in order, with labels) on both routes, for every
     store, filter tree, ordering, window, offset, limit and MaxResults. -/
-def Holds (cfg : Cfg) : Prop :=
+def HoldsStore (cfg : Cfg) : Prop :=
   ∀ (store : List Rec) (q : Query), bucketRoute cfg store q = scanRoute cfg store q
+
+/-- …and with the field buckets as the state the code keeps (built lazily over a snapshot, told
+    about mutations, buffering those that arrive during a build): after every history of saves,
+    deletes, reloads and build steps, the accelerated route over the buckets as they are agrees
+    with the full scan of the current contents. -/
+def HoldsS (cfg : Cfg) : Prop :=
+  ∀ (h : List MOp) (q : Query), bucketRouteS cfg (runB cfg h) q = scanRoute cfg (runB cfg h).store q
+
+def Holds (cfg : Cfg) : Prop := HoldsStore cfg ∧ HoldsS cfg
 
 def keysOf (l : List Item) : List String := l.map (·.1)
 
@@ -145,22 +156,29 @@ def pagingGoodB (cfg : Cfg) : Bool :=
   (cfg.bucketPagingAfterFilter && cfg.scanPagingAfterFilter) ||
   (!cfg.bucketPagingAfterFilter && !cfg.scanPagingAfterFilter && cfg.pagedQueriesBypass)
 
-/-- all facts sound -/
-def goodB (cfg : Cfg) : Bool :=
-  legGoodB cfg && cfg.planOrBypassOnSubGroups && cfg.lookupInDedupes && cfg.unionDedupes &&
+/-- the facts of the shared machinery of the two routes (everything but how a leg compares) -/
+def routesGoodB (cfg : Cfg) : Bool :=
+  cfg.planOrBypassOnSubGroups && cfg.lookupInDedupes && cfg.unionDedupes &&
   pagingGoodB cfg && cfg.labelReattach && cfg.bucketChecksAttr && cfg.bucketWindowTimeOnly
+
+/-- the facts of the two routes are sound -/
+def goodStoreB (cfg : Cfg) : Bool := legGoodB cfg && routesGoodB cfg
+
+/-- all facts sound -/
+def goodB (cfg : Cfg) : Bool := goodStoreB cfg && trackGoodB cfg
 
 /-- **Full theorem (repaired facts)**: `paging_agree` and `labels_agree` together — same records,
     same order, same labels, for every store and every query. -/
-theorem holds_of_good (cfg : Cfg) (h : goodB cfg = true) : Holds cfg := by
-  simp only [goodB, Bool.and_eq_true] at h
-  obtain ⟨⟨⟨⟨⟨⟨⟨hleg, hb⟩, hd1⟩, hd2⟩, hpg⟩, hlab⟩, hattr⟩, hwin⟩ := h
-  intro store q
+theorem agree_of_legs (cfg : Cfg) (h : routesGoodB cfg = true) (store : List Rec) (q : Query)
+    (hlegs : ∀ g, q.filter = some g → ∀ r ∈ store, LegsAgree cfg r (topLeaves g)) :
+    bucketRoute cfg store q = scanRoute cfg store q := by
+  simp only [routesGoodB, Bool.and_eq_true] at h
+  obtain ⟨⟨⟨⟨⟨⟨hb, hd1⟩, hd2⟩, hpg⟩, hlab⟩, hattr⟩, hwin⟩ := h
   simp only [pagingGoodB, Bool.or_eq_true, Bool.and_eq_true, Bool.not_eq_true'] at hpg
   rcases hpg with ⟨hp1, hp2⟩ | ⟨⟨hp1, hp2⟩, hby⟩
   · have ha : Aligned cfg store q :=
       { dedupIn := hd1, dedupUnion := hd2, paging := Or.inl ⟨hp1, hp2⟩, attr := Or.inl hattr, window := Or.inl hwin }
-    exact (routes_agree_of cfg hb store q ha (fun g _ r _ => leg_agree cfg hleg r _)).2 hlab
+    exact (routes_agree_of cfg hb store q ha hlegs).2 hlab
   · by_cases hpaged : (q.from_ != 0 || q.limit != 0) = true
     · -- a paged query is answered by the scan route itself
       unfold bucketRoute
@@ -172,17 +190,58 @@ theorem holds_of_good (cfg : Cfg) (h : goodB cfg = true) : Holds cfg := by
         exact hpaged
       have ha : Aligned cfg store q :=
         { dedupIn := hd1, dedupUnion := hd2, paging := Or.inr ⟨hp1, hp2, h0.1, h0.2⟩, attr := Or.inl hattr, window := Or.inl hwin }
-      exact (routes_agree_of cfg hb store q ha (fun g _ r _ => leg_agree cfg hleg r _)).2 hlab
+      exact (routes_agree_of cfg hb store q ha hlegs).2 hlab
+
+theorem holdsStore_of_good (cfg : Cfg) (h : goodStoreB cfg = true) : HoldsStore cfg := by
+  simp only [goodStoreB, Bool.and_eq_true] at h
+  intro store q
+  exact agree_of_legs cfg h.2 store q (fun g _ r _ => leg_agree cfg h.1 r _)
+
+/-- every hinted leg of the filter sees, in every record of the store, a field that is not a number
+    or is a number of the kind it compares with (`Hv/Query/SameKind.lean`) -/
+def SameKindStore (store : List Rec) (q : Query) : Prop :=
+  ∀ g, q.filter = some g → ∀ r ∈ store, ∀ l ∈ topLeaves g, sameKindRec r l = true
+
+/-- **Partial theorem: same-kind operands.**  Whatever equality the scan route uses: on a store whose
+    hinted fields are all same-kind for the query's legs, the two routes return the same items. -/
+theorem routes_agree_same_kind (cfg : Cfg) (h : routesGoodB cfg = true) (hl : legBaseB cfg = true)
+    (store : List Rec) (q : Query) (hk : SameKindStore store q) :
+    bucketRoute cfg store q = scanRoute cfg store q :=
+  agree_of_legs cfg h store q (fun g hq r hr l hlm hh hi => leg_agree_of_same_kind cfg hl l hh hi r (hk g hq r hr l hlm))
+
+/-- …also over the buckets as a history left them -/
+theorem routesS_agree_same_kind (cfg : Cfg) (h : routesGoodB cfg = true) (hl : legBaseB cfg = true) (ht : trackGoodB cfg = true)
+    (hist : List MOp) (q : Query) (hk : SameKindStore (runB cfg hist).store q) :
+    bucketRouteS cfg (runB cfg hist) q = scanRoute cfg (runB cfg hist).store q := by
+  rw [bucketRouteS_run cfg ht hist q]
+  exact routes_agree_same_kind cfg h hl _ q hk
+
+/-- with every mutation reaching the buckets, the stateful accelerated route is the specified one -/
+theorem holdsS_of (cfg : Cfg) (hs : HoldsStore cfg) (ht : trackGoodB cfg = true) : HoldsS cfg := by
+  intro h q
+  rw [bucketRouteS_run cfg ht h q]
+  exact hs _ q
+
+theorem holds_of_good (cfg : Cfg) (h : goodB cfg = true) : Holds cfg := by
+  simp only [goodB, Bool.and_eq_true] at h
+  exact ⟨holdsStore_of_good cfg h.1, holdsS_of cfg (holdsStore_of_good cfg h.1) h.2⟩
 
 /-- what remains proved whatever the facts are: the conditional agreement of keys -/
 def Partial (cfg : Cfg) : Prop :=
-  cfg.planOrBypassOnSubGroups = true →
-  ∀ (store : List Rec) (q : Query), Aligned cfg store q →
-    (∀ g, q.filter = some g → ∀ r ∈ store, LegsAgree cfg r (topLeaves g)) →
-    keysOf (bucketRoute cfg store q) = keysOf (scanRoute cfg store q)
+  (cfg.planOrBypassOnSubGroups = true →
+    ∀ (store : List Rec) (q : Query), Aligned cfg store q →
+      (∀ g, q.filter = some g → ∀ r ∈ store, LegsAgree cfg r (topLeaves g)) →
+      keysOf (bucketRoute cfg store q) = keysOf (scanRoute cfg store q)) ∧
+  -- same-kind operands: full agreement, on any store and after any history
+  (routesGoodB cfg = true → legBaseB cfg = true →
+    (∀ (store : List Rec) (q : Query), SameKindStore store q → bucketRoute cfg store q = scanRoute cfg store q) ∧
+    (trackGoodB cfg = true → ∀ (hist : List MOp) (q : Query), SameKindStore (runB cfg hist).store q →
+      bucketRouteS cfg (runB cfg hist) q = scanRoute cfg (runB cfg hist).store q))
 
 theorem routes_agree_partial (cfg : Cfg) : Partial cfg :=
-  fun hb store q ha hl => (routes_agree_of cfg hb store q ha hl).1
+  ⟨fun hb store q ha hl => (routes_agree_of cfg hb store q ha hl).1,
+   fun h hl => ⟨fun store q hk => routes_agree_same_kind cfg h hl store q hk,
+                fun ht hist q hk => routesS_agree_same_kind cfg h hl ht hist q hk⟩⟩
 
 /-! ### 3. counterexamples: witness queries evaluated in the model -/
 
@@ -190,9 +249,17 @@ def witnessFails (cfg : Cfg) (store : List Rec) (q : Query) : Bool :=
   bucketRoute cfg store q != scanRoute cfg store q
 
 theorem refutes_of_witness (cfg : Cfg) (store : List Rec) (q : Query) (h : witnessFails cfg store q = true) :
-    ¬ Holds cfg := by
+    ¬ HoldsStore cfg := by
   intro hh
   simp [witnessFails, hh store q] at h
+
+def witnessFailsS (cfg : Cfg) (h : List MOp) (q : Query) : Bool :=
+  bucketRouteS cfg (runB cfg h) q != scanRoute cfg (runB cfg h).store q
+
+theorem refutes_of_witnessS (cfg : Cfg) (h : List MOp) (q : Query) (hw : witnessFailsS cfg h q = true) :
+    ¬ HoldsS cfg := by
+  intro hh
+  simp [witnessFailsS, hh h q] at hw
 
 def body (fs : List (String × Value)) : Option Value := some (.map fs)
 def rec (k : String) (b : Option Value) (c : Int) : Rec := { key := k, body := b, created := c, updated := 0, expire := 0 }
@@ -236,29 +303,72 @@ def witnesses : List (String × List Rec × Query) := [
     [rec "k1" (body [("a", .int 1)]) 1],
     qKey (.mk false [{ leaf [.field "a"] .i64In .none with intVals := [1, 1] }] []))]
 
-def findings (cfg : Cfg) : List String :=
+def storeFindings (cfg : Cfg) : List String :=
   ((witnesses.filter (fun w => witnessFails cfg w.2.1 w.2.2)).map (·.1)).eraseDups
 
-theorem refutes_of_findings (cfg : Cfg) (h : findings cfg ≠ []) : ¬ Holds cfg := by
-  unfold findings at h
+theorem refutes_of_storeFindings (cfg : Cfg) (h : storeFindings cfg ≠ []) : ¬ HoldsStore cfg := by
+  unfold storeFindings at h
   have : witnesses.filter (fun w => witnessFails cfg w.2.1 w.2.2) ≠ [] := by
     intro he; rw [he] at h; exact h (by simp)
   obtain ⟨w, hw⟩ := List.exists_mem_of_ne_nil _ this
   exact refutes_of_witness cfg w.2.1 w.2.2 (List.mem_filter.mp hw).2
+
+/-- the four steps of `GetOrBuildBucket` for field `a`, back to back (a sequential first query) -/
+def buildA : List MOp := [.beginBuild [.field "a"], .snapshot [.field "a"], .build [.field "a"], .drain [.field "a"]]
+def qA1 : Query := qKey (.mk false [leaf [.field "a"] .eq (.i64 1)] [])
+def recA (k : String) (v : Int) : Rec := rec k (body [("a", .int v)]) 1
+
+/-- (finding id, history, query): one per mutation kind that might not reach a built bucket, and one
+    for a mutation that falls between snapshot and build.  None fails under the facts of the tree. -/
+def trackWitnesses : List (String × List MOp × Query) := [
+  ("C08-bucket-misses-insert", [.put (recA "k1" 1)] ++ buildA ++ [.put (recA "k2" 1)], qA1),
+  ("C08-bucket-misses-update", [.put (recA "k1" 1)] ++ buildA ++ [.put (recA "k1" 2)], qA1),
+  ("C08-bucket-misses-delete", [.put (recA "k1" 1), .put (recA "k2" 1)] ++ buildA ++ [.del "k2"], qA1),
+  ("C08-bucket-build-drops-pending",
+    [.put (recA "k1" 1), .beginBuild [.field "a"], .snapshot [.field "a"], .put (recA "k2" 1), .build [.field "a"], .drain [.field "a"]],
+    qA1),
+  -- the builder has built and not drained yet; a save arrives (buffered); a reader comes
+  ("C08-bucket-served-before-drain",
+    [.put (recA "k1" 1), .beginBuild [.field "a"], .snapshot [.field "a"], .build [.field "a"], .put (recA "k2" 1)],
+    qA1)]
+
+def trackFindings (cfg : Cfg) : List String :=
+  ((trackWitnesses.filter (fun w => witnessFailsS cfg w.2.1 w.2.2)).map (·.1)).eraseDups
+
+theorem refutes_of_trackFindings (cfg : Cfg) (h : trackFindings cfg ≠ []) : ¬ HoldsS cfg := by
+  unfold trackFindings at h
+  have : trackWitnesses.filter (fun w => witnessFailsS cfg w.2.1 w.2.2) ≠ [] := by
+    intro he; rw [he] at h; exact h (by simp)
+  obtain ⟨w, hw⟩ := List.exists_mem_of_ne_nil _ this
+  exact refutes_of_witnessS cfg w.2.1 w.2.2 (List.mem_filter.mp hw).2
+
+def findings (cfg : Cfg) : List String := storeFindings cfg ++ trackFindings cfg
+
+theorem refutes_of_findings (cfg : Cfg) (h : findings cfg ≠ []) : ¬ Holds cfg := by
+  intro hh
+  unfold findings at h
+  by_cases hs : storeFindings cfg = []
+  · by_cases ht : trackFindings cfg = []
+    · simp [hs, ht] at h
+    · exact refutes_of_trackFindings cfg ht hh.2
+  · exact refutes_of_storeFindings cfg hs hh.1
 
 /-- the facts of the tree before the five `fix:` commits on the accelerated route -/
 def beforeFix : Cfg := {
   indexableOps := [.eq, .strIn, .i32In, .i64In], excludesSpecialPaths := false, planOrBypassOnSubGroups := true,
   scanEqCanonical := false, bucketPagingAfterFilter := false, scanPagingAfterFilter := false, labelReattach := false,
   pagedQueriesBypass := false, bucketChecksAttr := false, lookupInDedupes := true, unionDedupes := true,
-  bucketWindowTimeOnly := false }
+  bucketWindowTimeOnly := false,
+  bucketNotifyInsert := true, bucketNotifyUpdate := true, bucketNotifyDelete := true, bucketPendingReplayed := true,
+  readerDrainsInFlight := false }
 
 /-- the facts of the tree as of this writing: special paths are not hinted, paged queries take the
     index walk, labelled filters are evaluated whole on the candidates, time-ordered candidates must
-    carry the timestamp, the key index ignores the window.  Left: equality on the scan route. -/
+    carry the timestamp, the key index ignores the window; a field bucket is served only once the
+    buffer of its build is drained.  Left: equality on the scan route. -/
 def current : Cfg := { beforeFix with
   excludesSpecialPaths := true, pagedQueriesBypass := true, labelReattach := true, bucketChecksAttr := true,
-  bucketWindowTimeOnly := true }
+  bucketWindowTimeOnly := true, readerDrainsInFlight := true }
 
 def repaired : Cfg := { current with scanEqCanonical := true }
 
@@ -295,7 +405,8 @@ theorem witness_attribute :
 
 theorem findings_beforeFix : findings beforeFix =
     ["C08-scan-equality-not-canonical", "C08-special-path-hinted", "C08-paging-before-residual",
-     "C08-indexed-leg-label-dropped", "C08-bucket-route-ignores-index-attribute", "C08-window-on-key-index"] := by decide
+     "C08-indexed-leg-label-dropped", "C08-bucket-route-ignores-index-attribute", "C08-window-on-key-index",
+     "C08-bucket-served-before-drain"] := by decide
 
 theorem findings_current : findings current = ["C08-scan-equality-not-canonical"] := by decide
 
@@ -318,6 +429,64 @@ theorem holds_repaired : Holds repaired := holds_of_good repaired (by decide)
 example : findings { repaired with indexableOps := [.eq, .ne, .strIn, .i32In, .i64In] } = ["C08-non-equality-operator-hinted"] := by decide
 example : findings { repaired with planOrBypassOnSubGroups := false } = ["C08-or-union-with-subgroups"] := by decide
 example : findings { repaired with lookupInDedupes := false } = ["C08-duplicate-candidates"] := by decide
+example : findings { repaired with bucketNotifyInsert := false } =
+    ["C08-bucket-misses-insert", "C08-bucket-build-drops-pending", "C08-bucket-served-before-drain"] := by decide
+example : findings { repaired with bucketNotifyUpdate := false } = ["C08-bucket-misses-update"] := by decide
+example : findings { repaired with bucketNotifyDelete := false } = ["C08-bucket-misses-delete"] := by decide
+example : findings { repaired with bucketPendingReplayed := false } =
+    ["C08-bucket-build-drops-pending", "C08-bucket-served-before-drain"] := by decide
+example : findings { repaired with readerDrainsInFlight := false } = ["C08-bucket-served-before-drain"] := by decide
+
+/-- Closed witness: were an update of an existing key not passed on, a record whose field moved from 1
+    to 2 after the bucket was built would still be served for `a = 1`. -/
+theorem witness_bucket_misses_update :
+    let cfg := { repaired with bucketNotifyUpdate := false }
+    let h := [MOp.put (recA "k1" 1)] ++ buildA ++ [.put (recA "k1" 2)]
+    keysOf (bucketRouteS cfg (runB cfg h) qA1) = ["k1"] ∧ keysOf (scanRoute cfg (runB cfg h).store qA1) = [] := by decide
+
+/-- Closed witness: a save that falls between the builder's snapshot and its build is only in the
+    pending buffer; a drain that did not replay it would lose it. -/
+theorem witness_bucket_drops_pending :
+    let cfg := { repaired with bucketPendingReplayed := false }
+    let h := [MOp.put (recA "k1" 1), .beginBuild [.field "a"], .snapshot [.field "a"], .put (recA "k2" 1),
+              .build [.field "a"], .drain [.field "a"]]
+    keysOf (bucketRouteS cfg (runB cfg h) qA1) = ["k1"] ∧ keysOf (scanRoute cfg (runB cfg h).store qA1) = ["k1", "k2"] ∧
+    bucketRouteS repaired (runB repaired h) qA1 = scanRoute repaired (runB repaired h).store qA1 := by decide
+
+/-- **What holds on the current tree for equality**: with same-kind operands (the field is not a
+    number, or a number of the compare value's kind) the accelerated route over the buckets as any
+    history left them and the full scan return the same items — although `scanEqCanonical` is false. -/
+theorem current_same_kind (hist : List MOp) (q : Query) (hk : SameKindStore (runB current hist).store q) :
+    bucketRouteS current (runB current hist) q = scanRoute current (runB current hist).store q :=
+  routesS_agree_same_kind current (by decide) (by decide) (by decide) hist q hk
+
+/-- non-vacuity: integers against an integer compare value are same-kind (and the answer is not empty);
+    the float of the witness is not -/
+example : SameKindStore [recA "k1" 1, recA "k2" 2] qA1 := by
+  intro g hq r hr l hl
+  simp only [qA1, qKey, Option.some.injEq] at hq
+  subst hq
+  simp only [topLeaves, Group.leaves, Group.subs, List.flatMap_nil, List.append_nil, List.mem_singleton] at hl
+  subst hl
+  simp only [List.mem_cons, List.not_mem_nil, or_false] at hr
+  rcases hr with rfl | rfl <;> decide
+example : sameKindRec (rec "k1" (body [("a", .flt 23)]) 1) (leaf [.field "a"] .eq (.i64 5)) = false := by decide
+
+/-- `bucket_tracks_store`, restated: under the facts of the tree every settled bucket files exactly
+    the live records under the canonical key of their current body, after every history. -/
+theorem bucket_tracks_store_current (h : List MOp) :
+    ∀ b ∈ (runB current h).buckets, b.init = true → b.inFlight = false →
+      b.ents = entsOf b.path (runB current h).store ∧ b.pending = [] :=
+  bucket_tracks_store current (by decide) h
+
+/-- Closed witness: a bucket is `EqualityInitialized` as soon as `BuildEquality` returns, before its
+    builder has drained the buffer; a save that completed meanwhile sits in that buffer, and a reader
+    that comes now is served without it. -/
+theorem witness_bucket_served_before_drain :
+    let cfg := { repaired with readerDrainsInFlight := false }
+    let h := [MOp.put (recA "k1" 1), .beginBuild [.field "a"], .snapshot [.field "a"], .build [.field "a"], .put (recA "k2" 1)]
+    keysOf (bucketRouteS cfg (runB cfg h) qA1) = ["k1"] ∧ keysOf (scanRoute cfg (runB cfg h).store qA1) = ["k1", "k2"] ∧
+    bucketRouteS repaired (runB repaired h) qA1 = scanRoute repaired (runB repaired h).store qA1 := by decide
 
 /-- non-vacuity of the conditional theorem under the current facts: an unpaged key-ordered query
     over integer fields is `Aligned`, and the routes do return the same non-empty answer -/
@@ -349,6 +518,14 @@ structure Facts where
   canonStandard : Tri
   /-- `evaluateBytesFieldFilterAgainstMap` has the modelled shape -/
   scanLeafStandard : Tri
+  bucketNotifyInsert : Tri
+  bucketNotifyUpdate : Tri
+  bucketNotifyDelete : Tri
+  bucketPendingReplayed : Tri
+  readerDrainsInFlight : Tri
+  /-- `GetOrBuildBucket` publishes the bucket in flight, then snapshots, builds, drains; `OnInsert` /
+      `OnUpdate` / `OnDelete` buffer while in flight and apply otherwise -/
+  bucketLifecycleStandard : Tri
   deriving Repr
 
 def cfgOf (f : Facts) : Cfg := {
@@ -358,7 +535,10 @@ def cfgOf (f : Facts) : Cfg := {
   labelReattach := f.labelReattach.isYes, pagedQueriesBypass := f.pagedQueriesBypass.isYes,
   bucketChecksAttr := f.bucketChecksAttr.isYes,
   lookupInDedupes := f.lookupInDedupes.isYes, unionDedupes := f.unionDedupes.isYes,
-  bucketWindowTimeOnly := f.bucketWindowTimeOnly.isYes }
+  bucketWindowTimeOnly := f.bucketWindowTimeOnly.isYes,
+  bucketNotifyInsert := f.bucketNotifyInsert.isYes, bucketNotifyUpdate := f.bucketNotifyUpdate.isYes,
+  bucketNotifyDelete := f.bucketNotifyDelete.isYes, bucketPendingReplayed := f.bucketPendingReplayed.isYes,
+  readerDrainsInFlight := f.readerDrainsInFlight.isYes }
 
 def unknownFact (f : Facts) : Option String :=
   if f.indexableOps.isNone then some "indexableHint operators" else
@@ -370,6 +550,9 @@ def unknownFact (f : Facts) : Option String :=
   if [f.excludesSpecialPaths, f.planOrBypassOnSubGroups, f.scanEqCanonical, f.bucketPagingAfterFilter,
       f.scanPagingAfterFilter, f.labelReattach, f.pagedQueriesBypass, f.bucketChecksAttr, f.lookupInDedupes, f.unionDedupes,
       f.bucketWindowTimeOnly].any (· == .unknown) then some "a fact of GetByIndexStream / bucket_exec / bucket" else
+  if !f.bucketLifecycleStandard.isYes then some "GetOrBuildBucket / OnInsert / OnUpdate / OnDelete shape" else
+  if [f.bucketNotifyInsert, f.bucketNotifyUpdate, f.bucketNotifyDelete, f.bucketPendingReplayed, f.readerDrainsInFlight].any (· == .unknown) then
+    some "a bucket notification of SaveFunction / deleteHandler / DrainPending" else
   none
 
 def classify (f : Facts) : Verdict :=
